@@ -14,6 +14,10 @@ CLAIMED = {
          "§5 C13", "merge_constraints Jinja templates are outside the model (only pkey_merge_constraint); duplicate rows of non-first sources are covered by correspondence, the algebra theorem assumes duplicate-free sources"),
  "C14": ("proof", "Theorems (Props/C14.v): the integrity loop returns a subset of the merged data that is closed under all constraints and contains every closed subset (greatest closed subset); it terminates within |data|+1 rounds; constraints are monotone; a single pass is refuted on a depth-2 chain. Correspondence with the real Datamodel.fetch over chains, two-parent and diamond types, constraints on any subset of types in any declaration order in both template forms, parents disappearing and returning; event-level oracle that filtered objects come back as 'added'.",
          "§5 C14", "constraint language = conjunctions of '_SELF.a in P_pkeys' (also written with the <Type> list variable); other Jinja constraints are not modelled"),
+ "C18": ("proof", "Theorems (Props/C18.v): a log invariant (consecutive ids, last id = sequence, timestamps in insertion order) holds in every state reachable by any interleaving of producer/consumer operations; offsets strictly increasing and never reused (the sequence survives a purge of everything); delivery = retained events from the cursor in order; resume at exactly the saved offset; seek accepted iff oldest retained <= o <= next, refused on purged/future/fresh database; purge removes only events older than the limit. Correspondence on the real SQLite plugins (separate connections, real purge with aged timestamps) on random sequences up to 120 ops and all sequences <=3/<=5 ops; oracle with ground truth read by plain SQL.",
+         "§5 C18", "SQLite transaction isolation trusted; processes modelled as interleaved atomic operations; monotone clock"),
+ "C19": ("proof", "Theorems (Props/C19.v): the (repaired, path-local) circular-reference check never refuses an acyclic foreign-key graph, always refuses a genuinely cyclic one whose keys are well-formed, and always terminates. Correspondence of the rule checks and the cycle check with the real Dataschema on all well-formed schemas over <=3 types (+4/5 types sampled or complete) and schemas with injected documented mistakes, oracle = independent transitive-closure cycle test + 'error names the offending <type.attr>'; start-up walk of server and client configurations (each optional setting omitted, bounded settings at and beyond their limits, documented mistakes) classified as started / configuration error / crash.",
+         "§5 C19", "Cerberus, PyYAML and Jinja are black boxes: their verdict enters the start-up decision as a fact set by construction of each variant"),
 }
 REASON_TODO = "check not built yet in this revision (work in progress; see DESIGN.md §8)"
 def main():
